@@ -25,7 +25,8 @@ EXPLANATION = (
     'setBusy, extractPVMoves, extractPV, getPonderMove) a path- and flag-sensitive typestate shows that the move reaches '
     'Position::makeMove, MoveGen::isLegal/givesCheck, Search::SEE/getMoveExtend, TextIO::moveToString or a PV vector only after it was '
     'found in a generated move list (selectHashMove true, or the membership idiom with a per-candidate flag); (5) TBProbe::extendPV '
-    'truncates the PV at exactly the number of moves it replayed before it appends tablebase moves generated from that position.')
+    'truncates the PV at exactly the number of moves it replayed before it appends tablebase moves generated from that position.'
+    ' (6) the MultiPV count that indexes / offsets the root list or is handed on with it is min(.., rootMoves.size()) at every use and the list is not resized after the clamp.')
 UNDECIDED = ('that the chosen move is good; playability of PVs beyond the validated-prefix rule; MultiPV distinctness by value; score '
              'ranges (see C04 for the mate-distance encoding).')
 ASSUMPTIONS = ['MoveGen::pseudoLegalMoves + removeIllegal produce exactly the legal moves (property C01)',
